@@ -427,6 +427,12 @@ class World(object):
                 os.mkdir(p)
                 with open(os.path.join(p, 'inside'), 'w') as f:
                     f.write('inside target dir of %d' % o)
+                # permission bits are part of what must not change: read-only and private sub-directories
+                os.makedirs(os.path.join(p, 'pkg', 'private'))
+                with open(os.path.join(p, 'pkg', 'private', 'key'), 'w') as f:
+                    f.write('k')
+                os.chmod(os.path.join(p, 'pkg', 'private'), 0o500)
+                os.chmod(os.path.join(p, 'pkg'), 0o555)
         elif what == 'link':
             p = os.path.join(tdir, 'tl-%d' % o)
             if not os.path.lexists(p):
@@ -563,6 +569,27 @@ class World(object):
         for j in sorted(st['junk'], key=lambda x: (x['t'], x['id'])):
             tp = os.fsencode(self.tpath(j['t']))
             self.write_junk(tp, j)
+        # the size cache of the FreeDesktop.org spec, as file managers write it: an entry of the trash directory that is
+        # neither under files/ nor under info/ (a regular file, or a symlink to a file elsewhere): nobody may touch it
+        for t in st['tex']:
+            rr = random.Random('dirsizes|%s|%s' % (conc.variant_seed, t))
+            v = rr.random()
+            if v < 0.35:
+                tp = os.fsencode(self.tpath_real(t))
+                lines = b''.join(b'%d %d %s\n' % (4096 + k, 1500000000 + k, escape(sl))
+                                 for k, (tt_, sl) in enumerate(sorted(self.slots)) if tt_ == t)
+                lines += b'12 1400000000 gone-long-ago\n'
+                if v < 0.12:
+                    out = os.path.join(self.root, 'targets')
+                    os.makedirs(out, exist_ok=True)
+                    tgt = os.fsencode(os.path.join(out, 'sizes-%s' % t.replace(':', '-')))
+                    with open(tgt, 'wb') as f:
+                        f.write(lines)
+                    if not os.path.lexists(tp + b'/directorysizes'):
+                        os.symlink(tgt, tp + b'/directorysizes')
+                else:
+                    with open(tp + b'/directorysizes', 'wb') as f:
+                        f.write(lines)
         self.make_td_links()
         self.baseline = snapshot(self.root)
         return self
@@ -574,8 +601,11 @@ class World(object):
         rnd = random.Random('junk|%s|%s' % (self.conc.variant_seed, j['id']))
         if j['kind'] == 'nopath':
             s = b'junk-%d' % j['id']
-            if rnd.random() < 0.2:
+            v = rnd.random()
+            if v < 0.2:
                 os.mkdir(tp + b'/info/' + s + b'.trashinfo')      # an info entry that cannot be read as a file
+            elif v < 0.35:
+                os.symlink(b'/nonexistent/info-of-%d' % j['id'], tp + b'/info/' + s + b'.trashinfo')   # nor even stat()ed
             else:
                 with open(tp + b'/info/' + s + b'.trashinfo', 'wb') as f:
                     f.write(rnd.choice(self.JUNK_NOPATH))
@@ -589,8 +619,11 @@ class World(object):
                 alt = rnd.choice([b'.trashinfo', b'..trashinfo', b'...trashinfo'])
                 if not os.path.lexists(tp + b'/info/' + alt):
                     s = alt
-            with open(tp + b'/info/' + s, 'wb') as f:
-                f.write(b'[Trash Info]\nPath=' + escape(self.lpath('R', 'd', 'a')) + b'\nDeletionDate=1971-01-01T00:00:00\n')
+            if s.endswith(b'.txt') and rnd.random() < 0.3:
+                os.symlink(b'/nonexistent/not-an-info-%d' % j['id'], tp + b'/info/' + s)       # a dangling link that is no info file
+            else:
+                with open(tp + b'/info/' + s, 'wb') as f:
+                    f.write(b'[Trash Info]\nPath=' + escape(self.lpath('R', 'd', 'a')) + b'\nDeletionDate=1971-01-01T00:00:00\n')
             self.slots[(j['t'], s)] = ('junkfile', j['id'])
         else:
             raise ValueError(j['kind'])
